@@ -709,6 +709,19 @@ def gen_history(rng, malformed, max_ops=40, reuse=0.0):
                     ops.append(["create", b, rnd_meta(rng, falsy=malformed)])
                     exists.add(b)
                     count[b] = 0
+        # reads straight after a write (a layer that keeps state of its own - a cached count, a
+        # remembered last event - is stale exactly here), a quarter of the writes
+        if ops and ops[-1][0] in ("insert", "insert_many", "replace", "delete", "update") and ops[-1][1] == b \
+                and (b in exists or malformed) and rng.random() < 0.25:
+            k = rng.random()
+            if k < 0.4:
+                ops.append(["count", b, None, None])
+            elif k < 0.7:
+                ops.append(["get_event", b, ["live", rng.randrange(0, 6)]])
+            elif k < 0.85:
+                ops.append(["get", b, 1, None, None])
+            else:
+                ops.append(["metadata", b])
     return ops, univ
 
 
@@ -794,6 +807,32 @@ def bulk_boundary_histories():
                 ["get", 1, 1, None, None], ["replace_last", 1, [None, BASE + 9 * SEC, 0, 30]],
                 ["get", 1, -1, None, None], ["get", 2, -1, None, None], ["count", 2, None, None]]
         out.append((ops, [1, 2, MISSING_BUCKET]))
+    return out
+
+
+def read_write_read_histories():
+    """Deterministic corpus: every read (count, all, limit 1, by id, metadata, listing) BEFORE and AFTER
+    every kind of write, the same reads twice in a row, on two buckets holding the same instants - a
+    layer that answers a read from something it remembered is stale on the second round."""
+    out = []
+    m = [1, 1, 1, 0, None, 0]
+    base = [["create", 1, m], ["create", 2, m]]
+    for k in range(3):
+        base += [["insert", 1, [None, BASE + k * SEC, SEC, k + 1]], ["insert", 2, [None, BASE + k * SEC, SEC, k + 1]]]
+
+    def reads(b):
+        return [["count", b, None, None], ["get", b, -1, None, None], ["get", b, 1, None, None],
+                ["get_event", b, ["live", 0]], ["get_event", b, ["live", 5]], ["metadata", b], ["buckets"],
+                ["count", b, None, None]]
+    x = [None, BASE + 7 * SEC, 2 * SEC, 9]
+    writes = [[["insert", 1, x]], [["insert_many", 1, [x]]], [["insert_many", 1, [x, [["live", 1], BASE, 3 * SEC, 8]]]],
+              [["replace", 1, ["live", 1], x]], [["replace_last", 1, x]], [["delete", 1, ["live", 2]]],
+              [["delete", 1, ["live", 0]], ["insert", 1, x]], [["update", 1, 2, None, None, 3, None]],
+              [["delete_bucket", 1], ["create", 1, m], ["insert", 1, x]]]
+    for i, w in enumerate(writes):
+        w2 = writes[(i + 5) % len(writes)]
+        out.append((base + reads(1) + w + reads(1) + reads(2) + w2 + reads(1) + [["delete", 1, ["live", 0]]] + reads(1),
+                    [1, 2, MISSING_BUCKET]))
     return out
 
 
